@@ -638,7 +638,7 @@ func main() {
 	log15.Root().SetHandler(log15.DiscardHandler())
 	core.Main(&core.Family{
 		Name:      "table",
-		NewDriver: func() core.Driver { return &drv{} },
+		NewDriver: func() core.Driver { return &mux{} },
 		Recorders: map[string]core.Recorder{"default": record},
 	})
 }
